@@ -73,6 +73,7 @@ fn main() {
             let which = &arg(1)[8..];
             cmd_backend::cmd_codegen(which, num(2, 1), num(3, 0) as usize, &mut *out, &args[5.min(args.len())..]);
         }
+        "c10-x86" => cmd_backend::cmd_c10("x86", num(2, 1), num(3, 0) as usize, &mut *out, &args[5.min(args.len())..]),
         "pm" => cmd_pm(num(2, 1), num(3, 100) as usize, &mut *out),
         "stages" => cmd_stages::cmd_stages(num(2, 1), num(3, 0) as usize, args.get(5..).unwrap_or(&[]), &mut *out),
         "fun2core" => cmd_fun2core::cmd_fun2core(num(2, 1), num(3, 0) as usize, args.get(5..).unwrap_or(&[]), &mut *out),
